@@ -194,14 +194,20 @@ def p_model_check(chk, quick, box):
 
 
 def p_herds(rng, n, first_id):
-    """seeded herds: groups of calls released at the same fake instant"""
+    """seeded herds: groups of calls made at the same fake instant (at most four calls per instant: TLC has to
+    explore every interleaving of their silent steps)"""
     plans = []
-    ops = ["start", "close", "wts"]
+    ops = ["start", "close", "wts", "close"]
     for k in range(n):
-        groups = []
+        groups, here = [], 0
         for _ in range(rng.randint(1, 4)):
-            m = rng.choice([1, 2, 2, 3, 3, 4])
-            groups.append({"ops": [rng.choice(ops + ["close"]) for _ in range(m)], "gap": rng.randint(0, 3)})
+            m = rng.choice([1, 2, 2, 3])
+            if here + m > 4 and groups:
+                groups[-1]["gap"] = 1
+                here = 0
+            gap = rng.choice([0, 1, 1, 2, 3])
+            groups.append({"ops": [rng.choice(ops) for _ in range(m)], "gap": gap})
+            here = here + m if gap == 0 else 0
         runs = [{"dur": rng.choice([0, 0, 1, 2]), "err": rng.random() < 0.15, "selfclose": rng.random() < 0.15} for _ in range(rng.randint(0, 5))]
         plans.append({"id": first_id + k, "interval": P_INTERVAL, "herd": groups, "runs": runs})
     return plans
@@ -231,12 +237,12 @@ def p_run_plans(plans, tag):
     return [x for x in recs if "summary" not in x], None, r
 
 
-def p_validate(chk, traces, cfg, tag):
+def p_validate_one(chk, traces, cfg, tag):
     """-> (error, {trace id: index of first unexplained event}, TLC result)"""
     d = vlib.scratch("periodic-tv")
     f = os.path.join(d, "%s-%s.ndjson" % (tag, cfg))
     vlib.write_ndjson(f, [{"id": t["id"], "events": t["events"]} for t in traces])
-    r = p_tlc(chk, "Periodic_Trace", cfg, workers=1, timeout=900, files={"traces.ndjson": f}, heap="3g")
+    r = vlib.tlc(P_SPEC, "Periodic_Trace", cfg, workers=1, timeout=900, files={"traces.ndjson": f}, heap="3g")
     if r.error and not r.error.startswith("invariant:"):
         raise vlib.Inconclusive("Periodic trace validation %s: %s\n%s" % (cfg, r.error, r.out[-2500:]))
     if r.error:
@@ -250,9 +256,32 @@ def p_validate(chk, traces, cfg, tag):
     return None, {int(a): int(b) for a, b in verdicts[0]["rejected"]}, r
 
 
+class _Sum:
+    def __init__(self):
+        self.distinct, self.wall = 0, 0.0
+
+
+def p_validate(chk, traces, cfg, tag, chunk=160, parallel=6):
+    """TLC decides per trace (one JVM per chunk, -workers 1 each, chunks side by side)"""
+    chunks = [traces[i:i + chunk] for i in range(0, len(traces), chunk)] or [[]]
+    t0 = time.time()
+    res = vlib.run_parallel([(lambda c=c, i=i: p_validate_one(chk, c, cfg, "%s-%d" % (tag, i))) for i, c in enumerate(chunks)], workers=parallel)
+    tot = _Sum()
+    err, rej = None, {}
+    for e, rj, r in res:
+        chk.add_tlc(r)
+        tot.distinct += r.distinct
+        if e and not err:
+            err, rej = e, rj
+        elif not err:
+            rej.update(rj)
+    tot.wall = time.time() - t0
+    return err, rej, tot
+
+
 def p_context(events, upto):
-    """abstract context of a failure: the kinds of the calls from the last WaitThenStart on (or the
-    last three), repetitions collapsed; never ordinals or times"""
+    """abstract context of a failure: "wts-then-close" when a Close follows a WaitThenStart, otherwise the
+    kinds of the last three calls/runs, repetitions collapsed; never ordinals or times"""
     out = []
     for e in events[:upto]:
         if e["ev"] == "call":
@@ -261,11 +290,9 @@ def p_context(events, upto):
             out.append("run")
         elif e["ev"] == "scall":
             out.append("close-in-execute")
-    if "wts" in out:
-        k = len(out) - 1 - out[::-1].index("wts")
-        out = [x for x in out[k:] if x in ("wts", "close", "close-in-execute")]
-    else:
-        out = out[-3:]
+    if "wts" in out and any(x in ("close", "close-in-execute") for x in out[out.index("wts"):]):
+        return "wts-then-close"          # a WaitThenStart with a Close after it: the class of the delayed-start defect
+    out = out[-3:]
     c = []
     for x in out:
         if not c or c[-1] != x:
@@ -318,7 +345,7 @@ def run_periodic_part(chk, args):
         if r.error:
             raise vlib.Inconclusive("Periodic Gen_small: %s\n%s" % (r.error, r.out[-1500:]))
         g = PGraph(dot)
-        paths, total, covered = g.covering(rng, 150 if quick else 2000, 14 if quick else 18)
+        paths, total, covered = g.covering(rng, 150 if quick else 700, 14 if quick else 16)
         plans = []
         for p in paths:
             plans.append({"id": len(plans) + 1, "interval": P_INTERVAL, "steps": g.steps(p), "src": "graph"})
@@ -331,7 +358,7 @@ def run_periodic_part(chk, args):
         cex = p_cex_steps(r.out)
         plans.append({"id": len(plans) + 1, "interval": P_INTERVAL, "steps": cex, "src": "cex-asis"})
         n_seq = len(plans)
-        plans += p_herds(rng, 150 if quick else 1500, len(plans) + 1)
+        plans += p_herds(rng, 150 if quick else 700, len(plans) + 1)
         # the documented limitation: restart while a run is in flight (TLC counterexample of Gen_restart)
         r = p_tlc(chk, "Periodic", "Gen_restart.cfg", workers=1, timeout=600, keep_prints=False)
         if r.error != "invariant:NoOverlapStrict":
@@ -530,6 +557,8 @@ def n_judge_script(case, rec):
             cmp(poll("during", k), e["during"], "during", oc)
             if oc == "timeout":
                 cmp(poll("wait", k), e["during"], "during-the-wait", oc)
+        if any(sig.startswith("ProxyNAT/poll-blocked/") for sig, _ in out):
+            break       # the parked pollOffer call reports later, into some other poll's slot: nothing after it can be judged
         cmp(poll("after", k), e["after"], "after", oc)
         if p.get("global") != e["after"]:
             out.append(("ProxyNAT/global/%s/got=%s/want=%s" % (oc, p.get("global"), e["after"]), "currentNATType after probe '%s' is %s, contract says %s" % (oc, p.get("global"), e["after"])))
@@ -702,15 +731,32 @@ def n_race(chk, emitted):
         if f.startswith("race."):
             with open(os.path.join(d, f)) as fh:
                 reports += [b for b in fh.read().split("==================") if "DATA RACE" in b]
-    mine = [b for b in reports if "currentNATType" in b or "getCurrentNATType" in b or "checkNATType" in b]
-    mine = [b for b in mine if "_verif_test.go" not in b.split("Previous")[0].split("Goroutine")[0] or "snowflake.go" in b]
+    mine = []
+    for rep in reports:
+        parts = re.split(r"\n\s*\n", rep.strip())
+        acc = [p for p in parts if re.match(r"\s*(WARNING: DATA RACE\s*)?(Write|Read|Previous write|Previous read|Atomic|Previous atomic)", p.strip())][:2]
+        if len(acc) < 2:
+            continue
+        tops = []
+        harness_top = False
+        for p in acc:
+            frames = re.findall(r"^\s+(\S+)\(\)\n\s+(\S+):\d+", p, re.M)
+            if not frames:
+                continue
+            fn, fl = frames[0]
+            harness_top = harness_top or fl.endswith("_verif_test.go")
+            tops.append(re.sub(r"^.*/", "", fn))
+        repo_code = any(re.search(r"/proxy/lib/(?!\w+_verif_test)\w+\.go|/common/\w+/\w+\.go", p) for p in acc)
+        on_path = any(k in rep for k in ("checkNATType", "getCurrentNATType", "pollOffer", "currentNATType"))
+        if repo_code and on_path and not harness_top and len(tops) == 2:
+            mine.append(("~".join(sorted(tops)), rep))
     if r.timed_out or not any("summary" in x for x in recs):
         chk.fail("ProxyNAT race run failed (rc=%s):\n%s" % (r.rc, r.out[-1500:]))
         return
     if mine:
-        fn = sorted(set(re.findall(r"snowflake_proxy\.\(?\*?\w*\)?\.?(\w+)\(\)", mine[0])))
-        chk.violation("ProxyNAT/NoRace/%s" % "+".join(fn[:3]), "the race detector reports an unsynchronised access to the NAT type global:\n" + mine[0][:1500],
-                      {"kind": "nat-race", "cases": cases, "report": mine[0][:4000]})
+        for key, rep in list(collections.OrderedDict(mine).items())[:4]:
+            chk.violation("ProxyNAT/NoRace/%s" % key, "the race detector reports unsynchronised accesses on the probe/poll path (probes running while readers and polls are active):\n" + rep[:1500],
+                          {"kind": "nat-race", "cases": cases, "report": rep[:4000]})
     else:
         chk.note("ProxyNAT: race detector: %d probes with hammering readers, no report on the NAT type global (%d other reports ignored)" % (
             sum(len(c["script"]) for c in cases), len(reports)))
@@ -744,10 +790,69 @@ def run_parts(chk, args, only=("periodic", "nat")):
         chk.fail(e)
 
 
+def replay(chk, rp):
+    """re-execute the `replay` object of one of this module's violation files; returns False when it is not ours"""
+    kind = rp.get("kind")
+    if kind == "periodic":
+        plan = dict(rp["plan"], id=1)
+        recs, hang, gr = p_run_plans([plan], "replay")
+        if hang is not None:
+            chk.violation(p_hang_signature(hang), "the real task.Periodic hangs on the replayed plan", {"kind": "periodic", "plan": plan, "stacks": hang.get("hang", "")[:6000]})
+            return True
+        t = recs[0]
+        err, rej, r = p_validate(chk, [t], "Trace.cfg", "replay")
+        if err:
+            chk.violation("Periodic/%s/%s" % (err, p_context(t["events"], len(t["events"]))), "invariant %s fails on the replayed plan" % err, {"kind": "periodic", "plan": plan, "trace": t})
+        elif rej:
+            sig, what = p_signature(chk, t, rej[1])
+            chk.violation(sig, what + " (replayed plan)", {"kind": "periodic", "plan": plan, "trace": t, "first_unexplained": rej[1]})
+        else:
+            chk.cov["traces_validated_against_impl"] += 1
+            chk.note("replay: the recorded execution is accepted by spec/Periodic")
+        return True
+    if kind == "nat":
+        c = rp["case"]
+        recs, r = n_run_proc(n_binary(), [c], n_cost(c) * 2 + 120)
+        rec = next((x for x in recs if x.get("id") == c["id"]), None)
+        if rec is None:
+            chk.fail("replay: the driver returned no record:\n" + r.out[-1500:])
+            return True
+        res = n_judge_start(c, rec) if c["kind"] == "start" else n_judge_script(c, rec)
+        for sig, what in res[:3]:
+            chk.violation(sig, what + " (replayed case)", {"kind": "nat", "case": c, "observed": rec})
+        if not res:
+            chk.note("replay: the case conforms to the contract of spec/ProxyNAT")
+        return True
+    if kind == "nat-race":
+        chk.fail("replay of a race report: run the thorough tier (the race detector needs the hammering run)")
+        return True
+    return False
+
+
 def run(chk, args):
+    if getattr(args, "replay", None):
+        with open(args.replay) as fh:
+            if not replay(chk, json.load(fh)["replay"]):
+                chk.fail("replay file is not from c16_nat")
+        return
     only = tuple((getattr(args, "only", None) or "periodic,nat").split(","))
     run_parts(chk, args, only)
     chk.cov["exhaustive"] = False
     chk.cov["rule"] = ("Periodic: a case is one execution of the real task.Periodic driven by a TLC behaviour or a seeded herd and accepted by TLC; "
                        "non-trivial = it contains a Close and at least one Execute run. ProxyNAT: a case is one probe script; non-trivial = it contains "
                        "a failing probe, a timeout, or a poll made while a probe is in flight")
+
+
+MANIFEST = {
+    "technique": "TLA+ specs Periodic (task.Periodic at the grain of its critical sections, explicit mutex, AfterFunc timers, explicit clock) and ProxyNAT "
+                 "(checkNATType step by step, the NAT type global under its RWMutex, pollers); TLC model-checks all interleavings; TLC behaviours are replayed "
+                 "with gates inside Execute into the real task.Periodic under the fake clock of testing/synctest and every recorded trace is validated by TLC "
+                 "(Periodic_Trace); TLC-emitted probe scripts with contract values drive the real checkNATType / pollOffer / Start against a scripted probe "
+                 "server, a real pion peer and a scripted broker",
+    "text": "Periodic: Execute runs never overlap, none is admitted after Close's critical section, a delayed start never outlives a later Close, the interval "
+            "is end-to-start, Close is idempotent and returns even when Execute calls it, nothing is left behind (liveness). ProxyNAT: the global always equals "
+            "the table applied to the completed probes (open -> unrestricted, timeout -> restricted, any error keeps the previous value), every poll reports "
+            "one of the three names and the value of the latest completed probe, a probe in flight never holds the lock while it blocks, no access without the lock.",
+    "note": "Found and repaired: WaitThenStart not cancelled by Close (8ea02c9), nil dereference on an unparsable probe URL (e13debb), PeerConnection left open on "
+            "every error path of checkNATType (48b5435), newSignalingServer mutating http.DefaultTransport while polls use it (3117e7d).",
+}
